@@ -188,10 +188,16 @@ SKELS = [
     ['x', ' =', ' 1', '  ', '# done'],
     ['foo', ' bar', '\n', 'x', ' =', ' 1', '\n', 'y', '\n'],
     ['if', ' x', ':', '\r', '\\\r', 'y', '\r', 'z', ' =', ' (', '1', ',', '\r', ' 2', ')', '\r'],
+    ["f'''", '{', 'v', ':', '>', '\n', '10', '}', "'''", '\n', 'f"', 'abc', '\\\n', 'def', '{', 'y', ':', '{', 'w', '}', 'd', '}', '"', '\n'],
+    ['(' * 95, 'a', ')' * 95, '\n'],
+    ['# h\n', '\n', '    ', 'import', ' os', '\n', 'x', '\n'],
+    ['def', ' f', '(', ')', ':', '\n', '    ', 'x', ' =', ' 1', ';', ' global', ' x', ';', ' break', '\n', '    ', 'continue', '\n'],
+    ['f', '(', 'a', ',', ' k', '=', '1', ',', ' *', 'x', ')', '\n', 'class', ' C', '(', 'B', ',', ' m', '=', '1', ')', ':', ' pass', '\n'],
+    ['a', ' =', ' 1', '\n', 'x', ' =', ' [', '\n', '    1', ',', '\n', ']', '          #comment', '\n', 'y', ' =', ' 2', '\n'],
     ['\ufeff', 'x', ' =', ' (', '1', ',', '\n', ' 2', ')', '\n', '\n', '\n', '\n', 'y', '=', '1'],
 ]
 _EXTRA = ['', 'a', '1', "'s'", '$', '\n', '\n    ', '\n  ', 'f"', "f'", '"', "'", '"""', '\\\n', '#c\n', '?', '1.', '0x', 'é', '²',
-          'a²', "br'a\\\nb'", '\n\xa0\n', 'l', '\x0c', '\r']
+          'a²', "br'a\\\nb'", '\n\xa0\n', 'l', '\x0c', '\r', '"\'a\\\nb"', '#\n', '00', '0_0', '1_000j', 'async']
 
 
 def labels(vi):
@@ -201,7 +207,7 @@ def labels(vi):
 
 def pipe_label(k: int, pos: int, j: int, replace: bool, vi: int) -> bool:
     """
-    require: 0 <= k < len(SKELS) and 0 <= vi < 9 and 0 <= pos <= len(SKELS[k]) and 0 <= j < 130
+    require: 0 <= k < len(SKELS) and 0 <= vi < 9 and 0 <= pos <= len(SKELS[k]) and 0 <= j < 140
     """
     try:
         from crosshair.tracers import NoTracing
@@ -236,7 +242,7 @@ def pipe_label_known(k, pos, j, replace, vi):
 
 def pipe_label2(k: int, pos: int, j1: int, j2: int, vi: int) -> bool:
     """
-    require: 0 <= k < len(SKELS) and 0 <= vi < 9 and 0 <= pos <= len(SKELS[k]) and 0 <= j1 < 130 and 0 <= j2 < 130
+    require: 0 <= k < len(SKELS) and 0 <= vi < 9 and 0 <= pos <= len(SKELS[k]) and 0 <= j1 < 140 and 0 <= j2 < 140
     """
     try:
         from crosshair.tracers import NoTracing
@@ -376,7 +382,8 @@ def pipe_spell2_known(k, c1, c2, vi):
 
 # -------------------------------------------------------------------------------------------------
 # bytes input (C01): parse(bytes) returns exactly the decoded text (a UTF-8 BOM is kept as U+FEFF)
-BYTES = [b'x = 1\n', b'# c\nx = "\xc3\xa9"\n', b'def f():\n  pass\n', b'']
+BYTES = [b'x = 1\n', b'# c\nx = "\xc3\xa9"\n', b'def f():\n  pass\n', b'',
+         b'# coding: latin-1\nx = "\xc3\xa9"\n', b'#!/bin/sh\n# -*- coding: cp1252 -*-\nx = "\xc3\xa9\x80"\n']
 
 
 def pipe_bytes(k: int, bom: bool, b1: int, at: int) -> bool:
@@ -387,8 +394,13 @@ def pipe_bytes(k: int, bom: bool, b1: int, at: int) -> bool:
     at = min(at, len(body))
     data = (b'\xef\xbb\xbf' if bom else b'') + body[:at] + bytes([b1]) + body[at:]
     if b'coding' in data:
-        return True
-    want = data.decode('utf-8')      # keeps the BOM as U+FEFF
+        # with a declaration: CPython's rule is the oracle (files CPython cannot decode are outside the claim)
+        from vp.concrete import _ref_decode
+        want = _ref_decode(data)
+        if want is None:
+            return True
+    else:
+        want = data.decode('utf-8')      # keeps the BOM as U+FEFF
     g = grammar(4)
     m = g.parse(data)
     if m.get_code() != want:
